@@ -46,17 +46,26 @@ Proof. exact history_wf. Qed.
 Print Assumptions C05_reachable_wf.
 
 (* "opening and fully validating any such version succeeds": Dataset::validate (transcribed: validate_dataset)
-   accepts a well formed manifest.  _partial: see Proofs_Manifest.v - four side conditions of validate are
-   hypotheses, not proved invariants. *)
+   accepts a well formed manifest outside the known-finding class.  _partial: see Proofs_Manifest.v - five
+   side conditions of validate are hypotheses, not proved invariants. *)
 Theorem C05_validate_ok_partial : forall m,
   wf_manifest m = true ->
+  Known_C05_validate_rejects_tombstone_in_legacy_file m = false ->
   forallb (fun f => negb (match fr_files f with [] => true | _ => false end)
                     && forallb (fun d => existsb (fun x => z_mem x (m_schema m)) (df_fields d)) (fr_files f)
-                    && Bool.eqb (existsb is_legacy_file (fr_files f)) (forallb is_legacy_file (fr_files f))) (m_fragments m) = true ->
+                    && Bool.eqb (existsb is_legacy_file (fr_files f)) (forallb is_legacy_file (fr_files f))
+                    && forallb (fun d => negb (is_legacy_file d) || strict_sorted_z (filter (fun x => negb (x =? TOMBSTONE)%Z) (df_fields d))) (fr_files f)) (m_fragments m) = true ->
   nodup_n (map ix_uuid (m_indices m)) && indices_disjoint (m_indices m) = true ->
   validate_dataset m = true.
 Proof. exact validate_dataset_ok_partial. Qed.
 Print Assumptions C05_validate_ok_partial.
+
+(* Known finding validate_rejects_tombstone_in_legacy_file: a well formed manifest with a tombstoned field in a
+   legacy data file that Dataset::validate rejects *)
+Theorem C05_validate_rejects_tombstone_in_legacy_file_refuted :
+  exists m, wf_manifest m = true /\ Known_C05_validate_rejects_tombstone_in_legacy_file m = true /\ validate_dataset m = false.
+Proof. exact validate_rejects_tombstone_in_legacy_file_refuted. Qed.
+Print Assumptions C05_validate_rejects_tombstone_in_legacy_file_refuted.
 
 (* regression of the repaired finding validate_rejects_tombstoned_field (repo commit 77d5a8a): a well formed
    manifest with a tombstoned field is accepted by validate *)
